@@ -524,11 +524,11 @@ def _expand_order_by_and_distinct_on(scope: Scope, resolver: Resolver) -> None:
             selects = {s.this: exp.column(s.alias_or_name) for s in expression.selects}
 
             for node in modifier_expressions:
-                node.replace(
-                    exp.to_identifier(_select_by_pos(expression, node).alias)
-                    if node.is_int
-                    else selects.get(node, node)
-                )
+                if node.is_int:
+                    node.replace(exp.to_identifier(_select_by_pos(expression, node).alias))
+                elif node in selects:
+                    # each occurrence needs its own node: a tree must not store one object twice
+                    node.replace(selects[node].copy())
 
 
 def _expand_positional_references(
